@@ -24,32 +24,39 @@ import (
 )
 
 const (
-	c12Quick    = 600   // 300 schedule configs + 60 each: ctx give-up, MaxElapsedTime give-up, concurrent, elapsed-inside-wait, ctx with zero waits
+	c12Quick    = 600   // (+120 extra +240 msgctx, see below) 300 schedule configs + 60 each: ctx give-up, MaxElapsedTime give-up, concurrent, elapsed-inside-wait, ctx with zero waits
 	c12Thorough = 60000 // the same mix, x100
 	// appended after the cases above (idx >= c12Quick / c12Thorough), (idx-base)%3: 0 long-lived, 1 redeliver, 2 nested
 	c12QuickExtra    = 120
 	c12ThoroughExtra = 1500
 	c12ExtraStride   = 3
-	c12Stride        = 10   // idx%10: 0..4 schedule, 5 ctx, 6 elapsed, 7 concurrent, 8 elapsed inside a wait, 9 ctx with zero waits
-	c12BigMR         = 2000 // MaxRetries of the MaxElapsedTime class
-	retryFrame       = "Retry.Middleware"
-	hour             = time.Hour
+	// appended after those (idx >= c12Quick+c12QuickExtra / ...): message contexts that carry deadlines / values, (idx-base)%4:
+	// 0 msgctx/elapsed, 1 msgctx/inside-wait, 2 msgctx/deadline-in-wait, 3 msgctx/schedule
+	c12QuickMsgCtx    = 240
+	c12ThoroughMsgCtx = 3000
+	c12MsgCtxStride   = 4
+	c12Stride         = 10   // idx%10: 0..4 schedule, 5 ctx, 6 elapsed, 7 concurrent, 8 elapsed inside a wait, 9 ctx with zero waits
+	c12BigMR          = 2000 // MaxRetries of the MaxElapsedTime class
+	retryFrame        = "Retry.Middleware"
+	hour              = time.Hour
 )
 
 func init() {
 	vlib.Register(&vlib.Prop{
 		ID:    "C12",
 		Level: "exploration",
-		Cases: func(tier string) int { return vlib.TierN(tier, c12Quick+c12QuickExtra, c12Thorough+c12ThoroughExtra) },
+		Cases: func(tier string) int {
+			return vlib.TierN(tier, c12Quick+c12QuickExtra+c12QuickMsgCtx, c12Thorough+c12ThoroughExtra+c12ThoroughMsgCtx)
+		},
 		Rule: "The first 600 (quick) / 60000 (thorough) cases: case idx%10 in 0..4 = class schedule: one random Retry config (MaxRetries 1..8, InitialInterval 0 / ns / us / up to 3 ms, Multiplier in {1,1.5,2,3,random 1..3}, " +
 			"MaxInterval = Initial .. Initial+6 ms, RandomizationFactor in {0,0.5,1,random}, MaxElapsedTime 0 or 1 h, Logger nil or Nop) wrapped ONCE and invoked with 3-4 handler scripts " +
 			"(fail forever; fail^MaxRetries then succeed; fail^i then succeed for a random i < MaxRetries; sometimes i=0), every attempt returning its own output slice and its own error value. " +
 			"idx%10==5 = class ctx/*: the message context ends (handler cancels it in attempt k=1 with 1 h intervals; in attempt k=2,3 with a tiny InitialInterval and a huge Multiplier so that only the wait after attempt k is >= 40 s; " +
 			"the harness cancels it from outside during the 1 h wait; it is cancelled before the call; it carries a 1-5 ms deadline). idx%10==6 = class elapsed: MaxElapsedTime 5..20 ms, MaxRetries 2000, interval 1..2 ms, handler taking >=100 us and failing forever. " +
 			"idx%10==7 = class concurrent: ONE wrapped handler retries a permanently failing message (MaxRetries 3..4, Initial 8..12 ms, Multiplier 2, RF 0) while another goroutine keeps passing fresh, immediately succeeding messages through the same wrapped handler every few ms: the failing message's hook delays and back-off gaps must still follow its own progression. " +
-			"idx%10==8 = class elapsed-inside-wait: Initial 40..80 ms, Multiplier 6, RF 0, MaxElapsedTime = 1.5 x Initial, so the budget ends inside the second wait with a margin of 5.5 x Initial (>= 220 ms): a third attempt must not happen (reported only if it happens in 4 of 4 consecutive runs, so that a stalled process cannot fake it). " +
+			"idx%10==8 = class elapsed-inside-wait: Initial 40..80 ms, Multiplier 6, RF 0, MaxElapsedTime = 1.5 x Initial, so the budget ends inside the second wait with a margin of 5.5 x Initial (>= 220 ms): a third attempt must not happen (reported only if Retry gave up in none of the runs of the scenario and a third attempt was seen in 4 runs that the harness's stall probe - its own 4 x Initial timer started in attempt 1 - found undisturbed, i.e. fired at most Initial late; at most 8 runs, otherwise inconclusive: a stalled process cannot fake it). " +
 			"idx%10==9 = class ctx-zero-wait: InitialInterval 0 (every wait is zero), MaxRetries 8, the handler cancels the message context in its first attempt; 40 such messages per case: with a zero wait both select branches may be ready, so single outcomes are not judged, but a Retry that honours the context gives up in most of them - reported when >= 30 of 40 messages used all 9 calls. " +
-			"The last 120 (quick) / 1500 (thorough) cases, j = idx-600 / idx-60000: " +
+			"The next 120 (quick) / 1500 (thorough) cases, j = idx-600 / idx-60000: " +
 			"j%3==0 = class long-lived/*: MaxElapsedTime E = 120..250 ms, MaxRetries 2..4, Initial 2..6 ms, Multiplier 1/1.5/2, MaxInterval 3 x Initial, RF 0 or <= 0.3 (all waits of one message sum to <= 70 ms, far below E), OnRetryHook set in half of the cases; " +
 			"the result of Retry.Middleware(h) is built ONCE and used for messages that arrive later than E after it was built: variant reused (one failing message at once, an idle pause of E + 10..60 ms, then 2-3 more messages with failing scripts), " +
 			"idle-first (the pause comes before the first message), same-message (as reused, but the very same *message.Message is presented every time), slow-first (no pause; the first attempt of the message itself takes E + 5..25 ms before it fails). " +
@@ -61,6 +68,17 @@ func init() {
 			"each level is judged like a schedule-class invocation (the inner chain is the outer level's handler), i.e. the handler runs min(g, (MRo+1)(MRi+1)) times, the outer hook is numbered 1.. once per failed outer retry, each inner run has its own hook numbering and back-off progression. " +
 			"In the classes schedule, redeliver, nested and long-lived the harness never ends the message context, so every delivery and every nesting level must get its full number of attempts; a context that Retry itself left ended or replaced on the message is only counted (msg_context_ended_by_retry, msg_context_replaced). " +
 			"Non-trivial: schedule = at least one retry was made and at least one hook delay and one back-off gap were judged; ctx/elapsed = Retry gave up with fewer than MaxRetries+1 calls; long-lived = a message first failed later than E after Middleware() was called and at least one of its back-off gaps was judged inside its own budget; redeliver = a delivery after an earlier failing delivery of the same object made a retry; nested = the outer level retried after the inner level had retried. " +
+			"The last 240 (quick) / 3000 (thorough) cases, m = idx-720 / idx-61500, class msgctx/*: the message's OWN context carries a deadline and/or values, built in one of 7 ways picked per case " +
+			"(WithTimeout; WithDeadline; a WithValue or WithCancel layer above or below the deadline; a second, later deadline stacked on the first) or, for kind none, carries no deadline " +
+			"(Background; WithCancel; WithValue; WithValue over WithCancel; WithoutCancel of an already cancelled context, with or without a value below it). The harness never cancels these contexts before the judgement; a carried value is looked up in every attempt (counted only). " +
+			"m%4==0 = msgctx/elapsed/<kind>: the configuration of class elapsed (MaxRetries 2000, interval 1..2 ms, handler >= 100 us, failing forever) with kind far (message deadline in 1..3 h, MaxElapsedTime E = 5..20 ms), later (deadline E + 1..5 min), " +
+			"none (no deadline, E = 5..20 ms), sooner (deadline D = 5..20 ms, E = D + 10..30 s), sooner-1h (E = 1 h), sooner-near (E = D + 1..5 ms): Retry must give up with fewer than 2001 calls whatever deadline the message has (2000 waits of >= 1 ms cannot fit into E resp. D). " +
+			"m%4==1 = msgctx/inside-wait/<kind>: the configuration of class elapsed-inside-wait (Initial 40..80 ms, Multiplier 6, the third attempt cannot start before 7 x Initial) with kind far / later / none (E = 1.5 x Initial, message deadline 1..3 h / E + 1..5 min / none) " +
+			"and kind sooner (message deadline D = 1.5 x Initial, E = 1 h / D + 10..30 s / 3 x Initial); attempts 1 and 2 fail, a third one would succeed (so a Retry that ignores the limit returns there): a third attempt must not happen (reported as in class elapsed-inside-wait: no run in which Retry gave up and 4 undisturbed runs with a third attempt, each run with a fresh context). " +
+			"m%4==2 = msgctx/deadline-in-wait/<kind>: Initial = MaxInterval = 1 h, message deadline D = 1..5 ms, kind E=0 / E=1h / E=D+10..30s / E=2..4xD: once the harness sees its own context ended after attempt 1, Retry has to return after exactly that one call (quiescence detector, as in ctx/deadline). " +
+			"m%4==3 = msgctx/schedule/<kind>: a schedule-class config and scripts with MaxElapsedTime 0 / 1 h / 5..30 s and kind far (deadline 2..3 h), between (E = 1 h, deadline 20..40 min), later-sec (E = 5..30 s, deadline E + 1..5 min), none: the deadline is far beyond the case, so every invocation must get its full number of attempts " +
+			"and the ordinary hook / delay / gap clauses apply (inconclusive if the harness finds its own context ended). " +
+			"Non-trivial for msgctx/*: elapsed = gave up with 2..2000 calls; inside-wait = gave up after exactly 2 calls; deadline-in-wait = returned after 1 call; schedule = as class schedule. " +
 			"Distinct = distinct (class, config, scripts, observed call counts).",
 		Assumptions: []string{
 			"MaxInterval >= InitialInterval (a cap below the initial interval is a mis-configuration which the vendored back-off does not honour on the first wait; excluded)",
@@ -73,7 +91,11 @@ func init() {
 			"a returned error is accepted when it is the last attempt's error value or wraps it (errors.Is)",
 			"'MaxElapsedTime passes' is per message: the budget of a message starts no earlier than the end of its first (failed) attempt, whatever the age of the middleware instance; the harness measures from the end of attempt 1 (taken inside the handler, so not later than Retry's own start) to the start of the retry / to the return (taken outside, so not earlier than Retry's own reading): 'budget not used up' by this measurement implies the same for Retry's own clock, the converse is tolerated",
 			"'the message context ends' refers to the context the caller put on the message: a Retry that ends the message's context itself (observed as msg.Context().Err() != nil after the call while the harness's context is alive) makes its own give-up condition true for every later Retry that sees the message; that is counted (msg_context_ended_by_retry), and the consequences (a later delivery / an outer Retry giving up although nobody ended the context) are judged by the ordinary calls clause",
+			"classes elapsed-inside-wait and msgctx/inside-wait: a process stalled from before the limit (1.5 x Initial) until after the end of the second wait (7 x Initial) finds both select branches of Retry ready, and Go picks one at random; such a run is recognised by the harness's own timer set to the middle of that window (4 x Initial, started in attempt 1) firing >= 3 x Initial late (threshold used: > Initial) and is not counted as a sighting (elapsed_inside_wait_third_attempt_in_stalled_run)",
 			"class nested: a failed inner chain counts as one failed attempt of the outer level; the product rule for the number of handler runs follows from judging both levels",
+			"class msgctx/*: 'gives up early when the message context ends or MaxElapsedTime passes' holds for every message context, whatever deadline it carries itself: the earlier of the two ends the retries. Only call counts are judged (no upper bound on any duration): " +
+				"msgctx/elapsed reports only the use of all 2001 calls (impossible while either limit is honoured, since 2000 waits of >= 1 ms are needed), msgctx/inside-wait only a third attempt in 4 of 4 undisturbed runs, msgctx/deadline-in-wait only a second call or a Retry that is quiescent in its 1 h wait after the harness saw the deadline pass",
+			"class msgctx/*: whether a value of the message context is visible through msg.Context() inside an attempt is counted (msgctx_value_seen / msgctx_value_missing), not judged",
 		},
 		Run: run,
 	})
@@ -290,6 +312,19 @@ type expect struct {
 	// does not prove that the budget was still open.
 	ownBudget time.Duration
 	ctxIntact bool // the harness never ends the message context: it must not have ended when Retry returns
+	// class msgctx/*: how the message context was built and the deadline it carries (0: none), for the reports
+	msgCtx      string
+	msgDeadline time.Duration
+}
+
+func (ex expect) ctxDesc() string {
+	if ex.msgCtx == "" {
+		return "none set"
+	}
+	if ex.msgDeadline == 0 {
+		return ex.msgCtx + " (no deadline)"
+	}
+	return fmt.Sprintf("%s (deadline %v after its creation)", ex.msgCtx, ex.msgDeadline)
 }
 
 type trace struct {
@@ -370,8 +405,12 @@ func judge(res *vlib.Result, c cfg, iv *invocation, ex expect) int {
 		if res.Failed() {
 			return
 		}
+		what := iv.script()
+		if ex.msgCtx != "" {
+			what += " message-context=" + ex.ctxDesc()
+		}
 		res.Fail(clause, "[%s run=%s cfg={MaxRetries:%d Initial:%v Max:%v Mult:%v RF:%v MaxElapsed:%v} script=%s] %s",
-			ex.class, iv.name, c.MaxRetries, c.Initial, c.Max, c.Mult, c.RF, c.MaxElapsed, iv.script(), fmt.Sprintf(format, args...))
+			ex.class, iv.name, c.MaxRetries, c.Initial, c.Max, c.Mult, c.RF, c.MaxElapsed, what, fmt.Sprintf(format, args...))
 	}
 	if iv.panicked != "" {
 		fail("panic", "Retry panicked: %s", iv.panicked)
@@ -410,7 +449,11 @@ func judge(res *vlib.Result, c cfg, iv *invocation, ex expect) int {
 		}
 	}
 	if ex.callsBelow > 0 && n >= ex.callsBelow {
-		fail("elapsed-giveup", "MaxElapsedTime %v passed but Retry used all %d calls (MaxRetries+1 = %d)", c.MaxElapsed, n, ex.callsBelow)
+		if ex.ctxClause {
+			fail("ctx-giveup", "the message context's own deadline (%v after its creation, MaxElapsedTime %v) passed but Retry used all %d calls (MaxRetries+1 = %d)", ex.msgDeadline, c.MaxElapsed, n, ex.callsBelow)
+		} else {
+			fail("elapsed-giveup", "MaxElapsedTime %v passed but Retry used all %d calls (MaxRetries+1 = %d)", c.MaxElapsed, n, ex.callsBelow)
+		}
 	}
 	// --- returned (messages, error)
 	last := iv.attempts[n-1]
@@ -619,6 +662,18 @@ func genCfg(r *vlib.Rand) cfg {
 // case runner
 
 func run(e *vlib.Env) vlib.Result {
+	if base := vlib.TierN(e.Tier, c12Quick+c12QuickExtra, c12Thorough+c12ThoroughExtra); e.Idx >= base {
+		m := e.Idx - base
+		switch m % c12MsgCtxStride {
+		case 0:
+			return runMsgCtxElapsed(e, m/c12MsgCtxStride)
+		case 1:
+			return runMsgCtxInsideWait(e, m/c12MsgCtxStride)
+		case 2:
+			return runMsgCtxDeadlineInWait(e, m/c12MsgCtxStride)
+		}
+		return runMsgCtxSchedule(e, m/c12MsgCtxStride)
+	}
 	if base := vlib.TierN(e.Tier, c12Quick, c12Thorough); e.Idx >= base {
 		j := e.Idx - base
 		switch j % c12ExtraStride {
@@ -910,6 +965,55 @@ func runConcurrent(e *vlib.Env) vlib.Result {
 	return res
 }
 
+// insideWaitMaxReps bounds the repetitions of an inside-wait scenario: a violation needs a third attempt in 4 runs that the
+// stall probe found undisturbed, and no run at all in which Retry gave up.
+const insideWaitMaxReps = 8
+
+// stallProbe is the harness's own timer, started inside attempt 1 of an inside-wait scenario and set to 4 x Initial, the middle
+// of the window (1.5 x Initial .. 7 x Initial after attempt 1) in which Retry has to notice that its limit has passed. A process
+// that was stalled over that whole window (then both select branches of Retry are ready and Go picks one at random) wakes the
+// probe at least 3 x Initial late; such a run does not count as a sighting of a third attempt.
+type stallProbe struct {
+	d       time.Duration
+	started atomic.Bool
+	stop    chan struct{}
+	done    chan time.Duration
+}
+
+func newStallProbe(d time.Duration) *stallProbe {
+	return &stallProbe{d: d, stop: make(chan struct{}), done: make(chan time.Duration, 1)}
+}
+
+func (p *stallProbe) start() {
+	if !p.started.CompareAndSwap(false, true) {
+		return
+	}
+	t0 := time.Now()
+	go func() {
+		select {
+		case <-time.After(p.d):
+			p.done <- time.Since(t0) - p.d
+		case <-p.stop:
+			p.done <- 0
+		}
+	}()
+}
+
+// finish is called after Retry returned. wait (a third attempt was made, so the probe's timer is due: it was started before the
+// end of attempt 1 and attempt 3 starts at least 7 x Initial later): the lateness of the probe is awaited and returned.
+// Otherwise the probe is stopped and its reading is not used.
+func (p *stallProbe) finish(wait bool) time.Duration {
+	if !p.started.Load() {
+		return 0
+	}
+	if wait {
+		return <-p.done
+	}
+	close(p.stop)
+	<-p.done
+	return 0
+}
+
 // runElapsedInsideWait: MaxElapsedTime ends inside a back-off wait, far away from both of its ends.
 func runElapsedInsideWait(e *vlib.Env) vlib.Result {
 	res := vlib.Result{Class: "elapsed-inside-wait"}
@@ -920,10 +1024,18 @@ func runElapsedInsideWait(e *vlib.Env) vlib.Result {
 	// A process stalled for that long could let both select branches become ready (then Go picks at random), so a third
 	// attempt is reported only when it shows up in every one of 4 consecutive runs of the scenario.
 	var tr trace
-	for rep := 0; rep < 4; rep++ {
+	sightings := 0
+	for rep := 0; rep < insideWaitMaxReps; rep++ {
 		iv := &invocation{name: fmt.Sprintf("%s-eiw%d", e.ID(), rep), forever: true}
 		h := c.retry(iv.hook).Middleware(iv.handler)
+		probe := newStallProbe(4 * ini)
+		iv.onAttemt = func(n int) {
+			if n == 1 {
+				probe.start()
+			}
+		}
 		oc, dump := iv.exec(h, message.NewMessage(iv.name, nil), nil)
+		late := probe.finish(oc == vlib.Done && iv.calls() >= 3)
 		tr = iv.trace()
 		res.Sample = map[string]any{"cfg": c, "invocation": tr, "repetition": rep}
 		res.Sig = vlib.Sig("elapsed-inside-wait", c.Initial, tr.Calls)
@@ -945,6 +1057,17 @@ func runElapsedInsideWait(e *vlib.Env) vlib.Result {
 			return res
 		}
 		res.Count("elapsed_inside_wait_third_attempt_seen", 1)
+		if late > ini {
+			res.Count("elapsed_inside_wait_third_attempt_in_stalled_run", 1)
+			continue
+		}
+		if sightings++; sightings == 4 {
+			break
+		}
+	}
+	if sightings < 4 {
+		res.Inconclusive("elapsed-inside-wait: a third attempt was made in all %d runs, but only %d of them were free of a stall (the harness's own 4 x Initial timer, started in attempt 1, fired more than Initial late in the others)", insideWaitMaxReps, sightings)
+		return res
 	}
 	res.Fail("elapsed-giveup", "[elapsed-inside-wait Initial=%v Mult=6 MaxElapsedTime=%v] in 4 of 4 runs Retry made %d handler calls: attempt 3 cannot start before 7 x Initial = %v, long after MaxElapsedTime passed, so Retry did not give up when the budget ended inside the wait", c.Initial, c.MaxElapsed, tr.Calls, 7*c.Initial)
 	res.Witness = tr
@@ -1345,4 +1468,424 @@ func minInt(a, b int) int {
 		return a
 	}
 	return b
+}
+
+// ---------------------------------------------------------------------------------------------
+// classes msgctx/*: the message's own context carries a deadline and/or values
+
+type ctxKey struct{ id string }
+
+// msgCtx is a message context built by the harness. The harness never ends it before the judgement (release is deferred).
+type msgCtx struct {
+	desc     string
+	ctx      context.Context
+	deadline time.Duration // as configured, relative to the creation of the context; 0: no deadline
+	key      any           // != nil: ctx.Value(key) == val
+	val      string
+	cancels  []context.CancelFunc
+	seen     *atomic.Int64 // attempts in which msg.Context().Value(key) == val
+	missing  *atomic.Int64
+}
+
+func (mc *msgCtx) release() {
+	for i := len(mc.cancels) - 1; i >= 0; i-- {
+		mc.cancels[i]()
+	}
+}
+
+// look is called inside an attempt: is the value of the caller's context visible through the message?
+func (mc *msgCtx) look(msg *message.Message) {
+	if mc.key == nil {
+		return
+	}
+	if v, _ := msg.Context().Value(mc.key).(string); v == mc.val {
+		mc.seen.Add(1)
+	} else {
+		mc.missing.Add(1)
+	}
+}
+
+func (mc *msgCtx) count(res *vlib.Result) {
+	res.Count("msgctx_value_seen", int(mc.seen.Load()))
+	res.Count("msgctx_value_missing", int(mc.missing.Load()))
+}
+
+const msgCtxFlavours = 42 // a multiple of both flavour counts (7 with a deadline, 6 without)
+
+// mkMsgCtx builds a message context with deadline d after now (d == 0: without a deadline) in one of several shapes.
+func mkMsgCtx(flavour int, d time.Duration, id string) *msgCtx {
+	mc := &msgCtx{deadline: d, seen: new(atomic.Int64), missing: new(atomic.Int64)}
+	bg := context.Background()
+	withValue := func(p context.Context) context.Context {
+		mc.key, mc.val = ctxKey{id}, "value-of-"+id
+		return context.WithValue(p, mc.key, mc.val)
+	}
+	withCancel := func(p context.Context) context.Context {
+		c, cancel := context.WithCancel(p)
+		mc.cancels = append(mc.cancels, cancel)
+		return c
+	}
+	withTimeout := func(p context.Context, d time.Duration) context.Context {
+		c, cancel := context.WithTimeout(p, d)
+		mc.cancels = append(mc.cancels, cancel)
+		return c
+	}
+	if d > 0 {
+		switch flavour % 7 {
+		case 0:
+			mc.desc, mc.ctx = "WithTimeout", withTimeout(bg, d)
+		case 1:
+			c, cancel := context.WithDeadline(bg, time.Now().Add(d))
+			mc.cancels = append(mc.cancels, cancel)
+			mc.desc, mc.ctx = "WithDeadline", c
+		case 2:
+			mc.desc, mc.ctx = "WithValue(WithTimeout)", withValue(withTimeout(bg, d))
+		case 3:
+			mc.desc, mc.ctx = "WithTimeout(WithValue)", withTimeout(withValue(bg), d)
+		case 4:
+			mc.desc, mc.ctx = "WithCancel(WithTimeout)", withCancel(withTimeout(bg, d))
+		case 5:
+			mc.desc, mc.ctx = "WithTimeout(WithCancel)", withTimeout(withCancel(bg), d)
+		default:
+			mc.desc, mc.ctx = "WithTimeout(WithTimeout(d), d+1h)", withTimeout(withTimeout(bg, d), d+hour)
+		}
+		return mc
+	}
+	switch flavour % 6 {
+	case 0:
+		mc.desc, mc.ctx = "Background", bg
+	case 1:
+		mc.desc, mc.ctx = "WithCancel", withCancel(bg)
+	case 2:
+		mc.desc, mc.ctx = "WithValue", withValue(bg)
+	case 3:
+		mc.desc, mc.ctx = "WithValue(WithCancel)", withValue(withCancel(bg))
+	case 4:
+		p, cancel := context.WithCancel(bg)
+		cancel()
+		mc.desc, mc.ctx = "WithoutCancel(cancelled)", context.WithoutCancel(p)
+	default:
+		p, cancel := context.WithCancel(withValue(bg))
+		cancel()
+		mc.desc, mc.ctx = "WithoutCancel(cancelled WithValue)", context.WithoutCancel(p)
+	}
+	return mc
+}
+
+func pickElapsed(r *vlib.Rand) time.Duration {
+	switch r.Intn(3) {
+	case 0:
+		return 0
+	case 1:
+		return hour
+	}
+	return time.Duration(r.Range(5, 30)) * time.Second
+}
+
+// runMsgCtxElapsed: class elapsed with a message context of its own: MaxElapsedTime (kinds far, later, none) or the sooner
+// message deadline (kinds sooner*) has to end the retries; using all 2001 calls needs 2000 waits of >= 1 ms.
+func runMsgCtxElapsed(e *vlib.Env, vi int) vlib.Result {
+	kinds := []string{"far", "later", "none", "sooner", "sooner-1h", "sooner-near"}
+	kind := kinds[vi%len(kinds)]
+	res := vlib.Result{Class: "msgctx/elapsed/" + kind}
+	ival := time.Duration(e.R.Range(1000, 2000)) * time.Microsecond
+	lim := time.Duration(e.R.Range(5, 20)) * time.Millisecond
+	c := cfg{MaxRetries: c12BigMR, Initial: ival, Max: ival, Mult: 1, RF: 0, MaxElapsed: lim, Logger: e.R.Bool()}
+	var d time.Duration
+	sooner := false
+	switch kind {
+	case "far":
+		d = time.Duration(e.R.Range(60, 180)) * time.Minute
+	case "later":
+		d = lim + time.Duration(e.R.Range(60, 300))*time.Second
+	case "sooner":
+		d, sooner, c.MaxElapsed = lim, true, lim+time.Duration(e.R.Range(10, 30))*time.Second
+	case "sooner-1h":
+		d, sooner, c.MaxElapsed = lim, true, hour
+	case "sooner-near":
+		d, sooner, c.MaxElapsed = lim, true, lim+time.Duration(e.R.Range(1, 5))*time.Millisecond
+	}
+	flavour := e.R.Intn(msgCtxFlavours)
+	iv := &invocation{name: e.ID() + "-mce", forever: true, work: 100 * time.Microsecond}
+	h := c.retry(iv.hook).Middleware(iv.handler)
+	msg := message.NewMessage(iv.name, e.R.Payload(8))
+	mc := mkMsgCtx(flavour, d, e.ID())
+	defer mc.release()
+	msg.SetContext(mc.ctx)
+	iv.onAttemt = func(int) { mc.look(msg) }
+
+	oc, dump := iv.exec(h, msg, nil)
+	tr := iv.trace()
+	res.Sample = map[string]any{"cfg": c, "kind": kind, "message_context": mc.desc, "message_deadline_ns": int64(d), "invocation": tr}
+	res.Sig = vlib.Sig("msgctx/elapsed", kind, mc.desc, c.Initial, c.MaxElapsed, d, tr.Calls)
+	if !finish(&res, oc, dump, iv, res.Class) {
+		return res
+	}
+	res.Events += judge(&res, c, iv, expect{class: res.Class, calls: -1, callsBelow: c.MaxRetries + 1, checkDelay: true, allowStop: true,
+		ctxClause: sooner, ctxIntact: !sooner, msgCtx: mc.desc, msgDeadline: d})
+	mc.count(&res)
+	if res.Failed() {
+		res.Witness = map[string]any{"trace": tr, "message_context": mc.desc, "message_deadline_ns": int64(d)}
+		return res
+	}
+	res.Count("invocations", 1)
+	if tr.Calls < c.MaxRetries+1 {
+		if sooner {
+			res.Count("msgctx_giveups_at_sooner_message_deadline", 1)
+		} else if d > 0 {
+			res.Count("msgctx_elapsed_giveups_with_later_message_deadline", 1)
+		} else {
+			res.Count("elapsed_giveups", 1)
+		}
+	}
+	res.NonTrivial = tr.Calls < c.MaxRetries+1 && tr.Calls >= 2
+	return res
+}
+
+// runMsgCtxInsideWait: class elapsed-inside-wait with a message context of its own. The limit that ends first (MaxElapsedTime for
+// the kinds far, later, none; the message deadline for kind sooner) ends inside the second wait, 5.5 x Initial before its end.
+func runMsgCtxInsideWait(e *vlib.Env, vi int) vlib.Result {
+	kinds := []string{"far", "later", "sooner", "none"}
+	kind := kinds[vi%len(kinds)]
+	res := vlib.Result{Class: "msgctx/inside-wait/" + kind}
+	ini := time.Duration(e.R.Range(40, 80)) * time.Millisecond
+	first := ini + ini/2
+	c := cfg{MaxRetries: 6, Initial: ini, Max: time.Hour, Mult: 6, RF: 0, MaxElapsed: first, Logger: e.R.Bool()}
+	var d time.Duration
+	sooner := false
+	switch kind {
+	case "far":
+		d = time.Duration(e.R.Range(60, 180)) * time.Minute
+	case "later":
+		d = first + time.Duration(e.R.Range(60, 300))*time.Second
+	case "sooner":
+		d, sooner = first, true
+		switch e.R.Intn(3) {
+		case 0:
+			c.MaxElapsed = hour
+		case 1:
+			c.MaxElapsed = first + time.Duration(e.R.Range(10, 30))*time.Second
+		default:
+			c.MaxElapsed = 3 * ini
+		}
+	}
+	flavour := e.R.Intn(msgCtxFlavours)
+	var tr trace
+	desc := ""
+	sightings := 0
+	for rep := 0; rep < insideWaitMaxReps; rep++ {
+		// attempts 1 and 2 fail; a third attempt (which a correct Retry never makes here) succeeds, so that a Retry that ignores
+		// the limit returns right after it instead of going on with waits of 36 x, 216 x ... Initial
+		iv := &invocation{name: fmt.Sprintf("%s-mcw%d", e.ID(), rep), failN: 2}
+		h := c.retry(iv.hook).Middleware(iv.handler)
+		msg := message.NewMessage(iv.name, nil)
+		mc := mkMsgCtx(flavour, d, iv.name)
+		desc = mc.desc
+		msg.SetContext(mc.ctx)
+		probe := newStallProbe(4 * ini)
+		iv.onAttemt = func(n int) {
+			mc.look(msg)
+			if n == 1 {
+				probe.start()
+			}
+		}
+		oc, dump := iv.exec(h, msg, nil)
+		late := probe.finish(oc == vlib.Done && iv.calls() >= 3)
+		mc.release()
+		mc.count(&res)
+		tr = iv.trace()
+		res.Sample = map[string]any{"cfg": c, "kind": kind, "message_context": mc.desc, "message_deadline_ns": int64(d), "invocation": tr, "repetition": rep}
+		res.Sig = vlib.Sig("msgctx/inside-wait", kind, mc.desc, c.Initial, c.MaxElapsed, tr.Calls)
+		if !finish(&res, oc, dump, iv, res.Class) {
+			return res
+		}
+		iv.mu.Lock()
+		retErr := iv.retErr
+		var lastErr error
+		if n := len(iv.attempts); n > 0 {
+			lastErr = iv.attempts[n-1].err
+		}
+		iv.mu.Unlock()
+		res.Events += tr.Calls + 1
+		if retErr == nil && tr.Calls <= 2 {
+			res.Fail("failure-to-success", "[%s] every attempt failed but Retry returned a nil error", res.Class)
+			return res
+		}
+		if tr.Calls <= 2 && lastErr != nil && retErr != lastErr && !errors.Is(retErr, lastErr) {
+			res.Fail("last-error", "[%s] last attempt (%d) failed with %q but Retry returned %q", res.Class, tr.Calls, lastErr.Error(), retErr.Error())
+			res.Witness = tr
+			return res
+		}
+		if tr.Calls <= 2 {
+			res.Count("invocations", 1)
+			if sooner {
+				res.Count("msgctx_giveups_at_sooner_message_deadline", 1)
+			} else if d > 0 {
+				res.Count("msgctx_elapsed_giveups_with_later_message_deadline", 1)
+			} else {
+				res.Count("elapsed_giveups", 1)
+			}
+			res.NonTrivial = tr.Calls == 2
+			return res
+		}
+		res.Count("elapsed_inside_wait_third_attempt_seen", 1)
+		if late > ini {
+			res.Count("elapsed_inside_wait_third_attempt_in_stalled_run", 1)
+			continue
+		}
+		if sightings++; sightings == 4 {
+			break
+		}
+	}
+	if sightings < 4 {
+		res.Inconclusive("%s: a third attempt was made in all %d runs, but only %d of them were free of a stall (the harness's own 4 x Initial timer, started in attempt 1, fired more than Initial late in the others)", res.Class, insideWaitMaxReps, sightings)
+		return res
+	}
+	if sooner {
+		res.Fail("ctx-giveup", "[%s Initial=%v Mult=6 MaxElapsedTime=%v message context %s with a deadline %v after its creation] in 4 of 4 runs Retry made %d handler calls: attempt 3 cannot start before 7 x Initial = %v, long after the message deadline passed, so Retry did not give up when the message context ended inside the wait",
+			res.Class, c.Initial, c.MaxElapsed, desc, d, tr.Calls, 7*c.Initial)
+	} else {
+		res.Fail("elapsed-giveup", "[%s Initial=%v Mult=6 MaxElapsedTime=%v message context %s, deadline %v after its creation (0: none)] in 4 of 4 runs Retry made %d handler calls: attempt 3 cannot start before 7 x Initial = %v, long after MaxElapsedTime passed, so Retry did not give up when the budget ended inside the wait",
+			res.Class, c.Initial, c.MaxElapsed, desc, d, tr.Calls, 7*c.Initial)
+	}
+	res.Witness = tr
+	return res
+}
+
+// runMsgCtxDeadlineInWait: the message deadline (1..5 ms) ends inside a 1 h back-off wait, with every relation to MaxElapsedTime.
+func runMsgCtxDeadlineInWait(e *vlib.Env, vi int) vlib.Result {
+	kinds := []string{"E=0", "E=1h", "E=D+10..30s", "E=2..4xD"}
+	kind := kinds[vi%len(kinds)]
+	res := vlib.Result{Class: "msgctx/deadline-in-wait/" + kind}
+	d := time.Duration(e.R.Range(1000, 5000)) * time.Microsecond
+	c := cfg{MaxRetries: e.R.Range(1, 8), Initial: hour, Max: hour, Mult: 1 + 2*e.R.Float(), RF: 0.5 * e.R.Float(), Logger: e.R.Bool()}
+	switch kind {
+	case "E=1h":
+		c.MaxElapsed = hour
+	case "E=D+10..30s":
+		c.MaxElapsed = d + time.Duration(e.R.Range(10, 30))*time.Second
+	case "E=2..4xD":
+		c.MaxElapsed = d * time.Duration(e.R.Range(2, 4))
+	}
+	flavour := e.R.Intn(msgCtxFlavours)
+	iv := &invocation{name: e.ID() + "-mcd", forever: true}
+	iv.outs = genOuts(e.R, iv.name, 3)
+	h := c.retry(iv.hook).Middleware(iv.handler)
+	msg := message.NewMessage(iv.name, e.R.Payload(8))
+	mc := mkMsgCtx(flavour, d, e.ID())
+	defer mc.release()
+	msg.SetContext(mc.ctx)
+	var a1 atomic.Bool
+	iv.onAttemt = func(int) { mc.look(msg); a1.Store(true) }
+	dctx := mc.ctx
+	// armed: the harness's own context has ended (so the deadline, invisible to the detector, is no longer pending) and attempt 1 was made
+	oc, dump := iv.exec(h, msg, func() bool { return a1.Load() && dctx.Err() != nil })
+	tr := iv.trace()
+	res.Sample = map[string]any{"cfg": c, "kind": kind, "message_context": mc.desc, "message_deadline_ns": int64(d), "invocation": tr}
+	res.Sig = vlib.Sig("msgctx/deadline-in-wait", kind, mc.desc, c.MaxRetries, c.MaxElapsed, tr.Calls)
+	mc.count(&res)
+	switch oc {
+	case vlib.Stuck:
+		res.Fail("ctx-giveup", "[%s cfg={MaxRetries:%d Initial:%v Max:%v Mult:%v RF:%v MaxElapsed:%v} message context %s with a deadline %v after its creation] the message context ended, yet Retry did not return: it sits in its back-off wait (process quiescent) after %d handler calls",
+			res.Class, c.MaxRetries, c.Initial, c.Max, c.Mult, c.RF, c.MaxElapsed, mc.desc, d, iv.calls())
+		res.Witness = map[string]any{"trace": tr, "goroutines": dump}
+		return res
+	case vlib.Inconclusive:
+		res.Inconclusive("%s: Retry did not return before the watchdog", res.Class)
+		return res
+	}
+	res.Events += judge(&res, c, iv, expect{class: res.Class, calls: 1, checkDelay: true, ctxClause: true, msgCtx: mc.desc, msgDeadline: d})
+	if res.Failed() {
+		res.Witness = tr
+		return res
+	}
+	res.Count("invocations", 1)
+	res.Count("msgctx_giveups_at_sooner_message_deadline", 1)
+	res.NonTrivial = tr.Calls == 1
+	return res
+}
+
+// runMsgCtxSchedule: class schedule on messages whose context carries a deadline far beyond the case (or none, in odd shapes).
+func runMsgCtxSchedule(e *vlib.Env, vi int) vlib.Result {
+	kinds := []string{"far", "between", "later-sec", "none"}
+	kind := kinds[vi%len(kinds)]
+	res := vlib.Result{Class: "msgctx/schedule/" + kind}
+	c := genCfg(e.R)
+	var d time.Duration
+	switch kind {
+	case "far":
+		c.MaxElapsed = pickElapsed(e.R)
+		d = time.Duration(e.R.Range(120, 180)) * time.Minute
+	case "between":
+		c.MaxElapsed = hour
+		d = time.Duration(e.R.Range(20, 40)) * time.Minute
+	case "later-sec":
+		c.MaxElapsed = time.Duration(e.R.Range(5, 30)) * time.Second
+		d = c.MaxElapsed + time.Duration(e.R.Range(60, 300))*time.Second
+	default:
+		c.MaxElapsed = pickElapsed(e.R)
+	}
+	flavour := e.R.Intn(msgCtxFlavours)
+	oneCtx := e.R.Bool() // one context (and one message) for all invocations, or a fresh one for each
+
+	var cur current
+	h := c.retry(cur.hook).Middleware(cur.handler)
+	scripts := []script{{forever: true}, {failN: c.MaxRetries}, {failN: e.R.Intn(c.MaxRetries)}}
+	if e.R.Intn(4) == 0 {
+		scripts = append(scripts, script{failN: 0})
+	}
+	order := e.R.Perm(len(scripts))
+	var shared *msgCtx
+	var sharedMsg *message.Message
+	if oneCtx {
+		shared = mkMsgCtx(flavour, d, e.ID())
+		defer shared.release()
+		sharedMsg = message.NewMessage(e.ID()+"-shared", e.R.Payload(8))
+		sharedMsg.SetContext(shared.ctx)
+	}
+	var traces []trace
+	var sigParts []any
+	retries, desc := 0, ""
+	for ri, si := range order {
+		s := scripts[si]
+		iv := &invocation{name: fmt.Sprintf("%s-s%d", e.ID(), ri), failN: s.failN, forever: s.forever}
+		iv.outs = genOuts(e.R, iv.name, c.MaxRetries+3)
+		mc, msg := shared, sharedMsg
+		if mc == nil {
+			mc = mkMsgCtx(flavour, d, iv.name)
+			defer mc.release()
+			msg = message.NewMessage(iv.name, e.R.Payload(8))
+			msg.SetContext(mc.ctx)
+		}
+		desc = mc.desc
+		iv.onAttemt = func(int) { mc.look(msg) }
+		cur.set(iv)
+		oc, dump := iv.exec(h, msg, nil)
+		traces = append(traces, iv.trace())
+		if !finish(&res, oc, dump, iv, iv.script()) {
+			break
+		}
+		if err := mc.ctx.Err(); err != nil {
+			res.Inconclusive("%s: the harness's own message context (%s, deadline %v) has ended (%v) before the judgement", res.Class, mc.desc, d, err)
+			break
+		}
+		res.Events += judge(&res, c, iv, expect{class: res.Class, calls: s.want(c.MaxRetries), checkDelay: true, ctxIntact: true, ownBudget: c.MaxElapsed, msgCtx: mc.desc, msgDeadline: d})
+		sigParts = append(sigParts, iv.script(), iv.calls())
+		retries += iv.calls() - 1
+		if res.Failed() {
+			res.Witness = map[string]any{"trace": iv.trace(), "message_context": mc.desc, "message_deadline_ns": int64(d)}
+			break
+		}
+		if mc != shared {
+			mc.count(&res)
+		}
+	}
+	if shared != nil {
+		shared.count(&res)
+	}
+	res.Count("invocations", len(traces))
+	res.NonTrivial = retries > 0 && res.Counters["hook_delays_judged"] > 0 && res.Counters["gaps_judged_positive"] > 0
+	res.Sig = vlib.Sig("msgctx/schedule", kind, desc, oneCtx, c.MaxRetries, c.Initial, c.Max, c.Mult, c.RF, c.MaxElapsed, d, sigParts)
+	res.Sample = map[string]any{"cfg": c, "kind": kind, "message_context": desc, "message_deadline_ns": int64(d), "one_context_for_all": oneCtx, "invocations": traces}
+	return res
 }
